@@ -68,7 +68,7 @@ func runC36(c *Ctx) {
 					c.bad("C36/accept/bounded", cst, pos, "a bounded allocation is accepted without limit' = SafeSub(limit, token), not negative, stored back into the same allocation")
 				}
 				// a changed limit must be reported back (or the grant deleted)
-				if !any("~wf(Delete, true)", resp) && !any("~wf(Updated, addr#*)", resp) {
+				if !any("~wf(Delete, true)", resp) && !any("~wf(Updated, ~or(addr#*, ref(~wf(Allocations, _))))", resp) {
 					okc = false
 					c.bad("C36/accept/bounded", cst, pos, "the limit changed but neither an updated authorization nor deletion is returned")
 				}
